@@ -42,7 +42,7 @@ import (
 	"github.com/openfga/openfga/internal/cachecontroller"
 	"github.com/openfga/openfga/internal/check"
 	"github.com/openfga/openfga/internal/condition"
-	"github.com/openfga/openfga/internal/featureflags"
+	"github.com/openfga/openfga/pkg/featureflags"
 	"github.com/openfga/openfga/internal/graph"
 	"github.com/openfga/openfga/internal/modelgraph"
 	"github.com/openfga/openfga/internal/shared"
